@@ -101,7 +101,7 @@ func Name(parts ...string) *E {
 	return e
 }
 func QName(name string) *E { return &E{K: "name", Parts: []Ident{{Name: name, Quoted: true}}} }
-func Num(lit string) *E     { return &E{K: "num", Lit: lit} }
+func Num(lit string) *E    { return &E{K: "num", Lit: lit} }
 func Str(lit, val string) *E {
 	return &E{K: "str", Lit: lit, Val: val}
 }
